@@ -700,6 +700,11 @@ class RowWiseModifiedBisectionSearch:
                 # continueLoop = True
                 # highT_e = T_lower
                 selected_specifier = lower_field_specifier
+                # the complete field at the largest spacing is known to satisfy the limits; it is the selection
+                # unless a reduced field passes as well
+                selected_coordinates = starting_field
+                selected_temp_excess = t_lower
+                selected_spacing = spacing_stop
                 i = 0
                 while i < self.max_iter:
                     nbh = (nbh_max + nbh_min) // 2
